@@ -649,6 +649,100 @@ func c04deepCase(c *vf.Ctx, i int) {
 	}
 }
 
+// c04treeCase walks a derivation TREE instead of a single path: several
+// children of the same parent, keys re-read from their own serialisation
+// (NewKeyFromString), neutered copies, and - between the steps - old nodes are
+// compared with the reference again.  Every key obtained at any step must
+// still equal the BIP32 key of its path after other keys were derived from
+// it, serialised or neutered.
+func c04treeCase(c *vf.Ctx, i int) {
+	w := &c04w{c: c, seed: c04seed(c, i), net: c04netList[i%len(c04netList)]}
+	type node struct {
+		k    *hdkeychain.ExtendedKey
+		r    *ref.XKey
+		path []uint32
+		h    uint64
+		note string
+	}
+	k, r := w.master()
+	if r == nil {
+		return
+	}
+	nodes := []*node{{k: k, r: r, h: w.h}}
+	at := func(n *node) {
+		w.path = append([]uint32(nil), n.path...)
+		w.h = n.h
+	}
+	add := func(k *hdkeychain.ExtendedKey, r *ref.XKey, note string) {
+		if r != nil && k != nil {
+			nodes = append(nodes, &node{k: k, r: r, path: append([]uint32(nil), w.path...), h: w.h, note: note})
+		}
+	}
+	steps := c.R.Range(8, 24)
+	for s := 0; s < steps; s++ {
+		n := nodes[c.R.Intn(len(nodes))]
+		if c.R.Chance(1, 2) {
+			n = nodes[len(nodes)-1-c.R.Intn(min(3, len(nodes)))]
+		}
+		at(n)
+		switch op := c.R.Intn(10); {
+		case op < 4: // child
+			if n.r.Depth == 255 {
+				continue
+			}
+			if n.r.IsPrivate() {
+				kc, rc := w.step(n.k, n.r, c04index(c.R), c.R.Chance(3, 10))
+				add(kc, rc, "")
+			} else {
+				idx := c04index(c.R) & 0x7fffffff
+				kc, rc := w.pubStep(n.k, n.r, idx, "(tree)")
+				if rc != nil {
+					w.path = append(w.path, idx)
+					add(kc, rc, "(public)")
+				}
+			}
+		case op < 6: // re-read the key from its own serialisation
+			var s string
+			var k2 *hdkeychain.ExtendedKey
+			var err error
+			if !c.Call("NewKeyFromString", w.where, func() {
+				s = n.k.String()
+				k2, err = hdkeychain.NewKeyFromString(s)
+			}) {
+				continue
+			}
+			c.Evals(1)
+			if err != nil || k2 == nil {
+				// parsing is C05's subject; a refusal here is only not usable
+				c.Inc("tree_reload_refused")
+				continue
+			}
+			c.Inc("tree_nodes_reloaded_from_string")
+			w.h = vf.Mix(w.h, 0x7ee1)
+			if w.compare("NewKeyFromString", k2, n.r, "(re-read from "+s+")") {
+				add(k2, n.r, "(re-read)")
+			}
+		case op < 7: // neuter
+			if n.r.IsPrivate() {
+				kn, rn := w.neuter(n.k, n.r)
+				w.h = vf.Mix(w.h, 0x7ee2)
+				add(kn, rn, "(neutered)")
+			}
+		default: // an old node must still be the key of its path
+			c.Inc("tree_nodes_revisited")
+			w.compare("revisit", n.k, n.r, "(revisited after "+fmt.Sprint(s)+" tree steps) "+n.note)
+		}
+	}
+	for _, n := range nodes {
+		at(n)
+		c.Inc("tree_nodes_revisited")
+		if !w.compare("revisit", n.k, n.r, "(at the end of the tree walk) "+n.note) {
+			break
+		}
+	}
+	c.Inc("tree_walks")
+}
+
 func c04errorsCase(c *vf.Ctx, i int) {
 	var n int
 	switch {
@@ -741,7 +835,8 @@ func init() {
 		Rule: "stream paths: seeds of every length 16..64 (random, all-zero, all-ones content) then random lengths, networks round-robin over those with a registered HD id, paths of 1..10 indices drawn from {0,1,2^31-1,2^31,2^31+1,2^32-1,random normal,random hardened}, every step compared with the reference (string, scalar, point, depth, fingerprint, address on every network, Neuter, child of the neutered parent or its refusal), optional CKDpub tail; " +
 			"stream leadzero: sibling search (HMAC only) for a child scalar with >=1 (7/8 of cases) or >=2 (1/8) leading zero bytes, which is then used for hardened and normal steps, serialisation and neutering; " +
 			"stream pathsdeep: chains to depth 255 (all-hardened, all-normal with a parallel public chain, boundary indices, mixed), then the depth-256 refusal on private and public keys; " +
-			"stream errors: seed lengths 0..15, 65..80 and random illegal lengths on every network. " +
+			"stream errors: seed lengths 0..15, 65..80 and random illegal lengths on every network; " +
+			"stream trees: derivation trees (several children per parent, keys re-read from their own string, neutered copies) in which every node is compared again after later derivations and serialisations of other nodes. " +
 			"A case is non-trivial and distinct per (seed, network, path prefix).",
 		Assumptions: []string{
 			"reference BIP32 / secp256k1 / Base58 / CashAddr written from the specifications, self-tested on BIP32 test vectors 1-3 and curve vectors on every run",
@@ -758,6 +853,7 @@ func init() {
 			{Name: "leadzero", N: func(t vf.Tier) int { return t.Sz(480, 6400) }, Run: c04leadzeroCase},
 			{Name: "pathsdeep", N: func(t vf.Tier) int { return t.Sz(64, 1200) }, Run: c04deepCase, MaxCaseSec: 120},
 			{Name: "errors", N: func(t vf.Tier) int { return t.Sz(600, 4000) }, Run: c04errorsCase},
+			{Name: "trees", N: func(t vf.Tier) int { return t.Sz(1500, 16000) }, Run: c04treeCase},
 		},
 	})
 }
